@@ -194,6 +194,21 @@ static std::mutex g_poolMu;
 static std::condition_variable g_poolCv;
 static int g_joinReached = 0;
 static bool g_sdDone = true;
+// ~TcpServer's body: the base thread is parked after each runInLoop hand-off (right after the wakeup() write of queueInLoop),
+// so that io-loop steps can be interleaved INSIDE the real destructor
+static int g_handoffsToPark = 0;     // hand-offs of the running ~TcpServer after which the base thread still parks
+static int g_handoffsParked = 0;     // parks reached so far
+static bool g_baseGo = false;
+static void base_park_after_handoff()
+{
+  std::unique_lock<std::mutex> l(g_poolMu);
+  if (g_handoffsToPark <= 0) return;
+  --g_handoffsToPark;
+  ++g_handoffsParked;
+  g_poolCv.notify_all();
+  g_poolCv.wait(l, []() { return g_baseGo; });
+  g_baseGo = false;
+}
 
 extern "C" {
 int __real_pthread_mutex_unlock(pthread_mutex_t* m);
@@ -342,6 +357,7 @@ extern "C" ssize_t __wrap_write(int fd, const void* buf, size_t n)
   {
     ssize_t r = __real_write(fd, buf, n);
     if (!ours && t_self && (t_self->armed & 4) && --t_self->stallWrites <= 0) verif_stall(4);
+    if (!ours && t_inSrvDtor) base_park_after_handoff();       // the wakeup() of a hand-off made by ~TcpServer
     return r;
   }
   size_t m = static_cast<size_t>(g_wscript) < n ? static_cast<size_t>(g_wscript) : n;
@@ -551,7 +567,9 @@ int main()
   TcpServer* server = NULL;
   TcpClient* client = NULL;
   bool strict = true, wc = false;
-  bool baseBusy = false;             // the base thread is inside ~TcpServer, blocked in the join() of an ~EventLoopThread
+  bool baseBusy = false;             // the base thread is inside ~TcpServer (parked between two hand-offs, or blocked in a join())
+  bool dying = false;                // ... parked between two hand-offs of the destructor's loop over connections_
+  TcpServer* victim = NULL;          // the server whose destructor is running (its connections_ are still there while dying)
   int fds0 = 0;
   // wait until the base thread has reached its next join() or ~TcpServer has returned
   auto waitPoolEvent = [&](int prevJoin) {
@@ -559,9 +577,35 @@ int main()
     if (!g_poolCv.wait_for(l, std::chrono::seconds(20), [&]() { return g_sdDone || g_joinReached > prevJoin; }))
       harnessStuck("the base thread neither reached the next join() nor finished ~TcpServer");
     baseBusy = !g_sdDone;
+    dying = false;
+    victim = NULL;
     l.unlock();
     if (!baseBusy) loops[0]->w.wait();     // the worker has taken note that its (asynchronous) job is over
   };
+  auto liveEntries = [&](TcpServer* sv) { int n = 0; for (auto& e : sv->connections_) if (e.second) ++n; return n; };
+  // wait until the base thread is parked after its next hand-off, or has reached a join() / finished the destructor
+  auto waitStep = [&](int prevParked, int prevJoin) {
+    std::unique_lock<std::mutex> l(g_poolMu);
+    if (!g_poolCv.wait_for(l, std::chrono::seconds(20), [&]() { return g_handoffsParked > prevParked || g_sdDone || g_joinReached > prevJoin; }))
+      harnessStuck("~TcpServer made no progress");
+    if (g_handoffsParked > prevParked) { dying = true; baseBusy = true; return; }
+    baseBusy = !g_sdDone;
+    dying = false;
+    victim = NULL;
+    l.unlock();
+    if (!baseBusy) loops[0]->w.wait();
+  };
+  auto sdNext = [&]() {
+    int pp, pj;
+    { std::lock_guard<std::mutex> l(g_poolMu); pp = g_handoffsParked; pj = g_joinReached; g_baseGo = true; }
+    g_poolCv.notify_all();
+    waitStep(pp, pj);
+  };
+  // the connection whose hand-off the parked destructor has just made: the loop body's local `TcpConnectionPtr conn` is still
+  // alive (the base thread is parked inside runInLoop), the model's iteration is atomic: that one reference is not a holder
+  TcpConnection* handRaw = NULL;
+  auto liveSet = [&](TcpServer* sv) { std::set<TcpConnection*> r; for (auto& e : sv->connections_) if (e.second) r.insert(e.second.get()); return r; };
+  bool inlineDying = false;          // no io threads: the stepped destructor has made at least one iteration
   // functors queued on an io loop are wrapped as soon as they are there (see Hold)
   auto wrapQueues = [&]() {
     for (size_t l = 1; l < loops.size(); ++l)
@@ -596,8 +640,8 @@ int main()
       g_conns.clear(); g_events.clear(); g_dtors.clear(); g_fdconn.clear(); g_epfd.clear(); g_pp.clear(); g_badClose = 0;
       g_concurrent = false;
       g_wscript = -1;
-      baseBusy = false;
-      { std::lock_guard<std::mutex> l(g_poolMu); g_sdDone = true; g_joinReached = 0; }
+      baseBusy = false; dying = false; victim = NULL; inlineDying = false;
+      { std::lock_guard<std::mutex> l(g_poolMu); g_sdDone = true; g_joinReached = 0; g_handoffsToPark = 0; g_handoffsParked = 0; g_baseGo = false; }
       for (int l = 0; l <= nio; ++l)
       {
         LoopRec* r = new LoopRec;
@@ -688,6 +732,8 @@ int main()
         delete f;
       }
       calls.clear();
+      // a destructor that is between two hand-offs finishes its body first (the io threads are still parked)
+      while (dying) sdNext();
       // the io threads of the pool run free from here on (the hooks no longer park them)
       g_concurrent = true;
       for (size_t l = 1; l < loops.size(); ++l)
@@ -798,7 +844,7 @@ int main()
     };
     if (k == "ACC")
     {
-      if (!server || baseBusy) rejected = true;
+      if (!server || baseBusy || inlineDying) rejected = true;
       else
       {
         ConnRec cr;
@@ -840,25 +886,57 @@ int main()
     }
     else if (k == "SDESTROY")
     {
-      if (!server || baseBusy) rejected = true;
-      else if (loops.size() == 1) loops[0]->w.exec([&]() { delete server; server = NULL; });
+      // ~TcpServer is a loop of hand-offs: one SDESTROY per live entry of connections_, one more for the death of the members
+      if (dying)
+      {
+        std::set<TcpConnection*> before = liveSet(victim);
+        TcpServer* v = victim;
+        sdNext();
+        handRaw = NULL;
+        if (dying) { std::set<TcpConnection*> after = liveSet(v); for (TcpConnection* x : before) if (!after.count(x)) handRaw = x; }
+      }
+      else if (!server || baseBusy) rejected = true;
+      else if (loops.size() == 1)
+      {
+        // no io threads: everything is inline on the base thread.  The destructor's loop is stepped by hand (one iteration =
+        // the three statements of TcpServer.cc: copy the entry, reset it, conn->getLoop()->runInLoop(connectDestroyed)); when no
+        // live entry is left the real ~TcpServer runs (over an empty map)
+        TcpServer* sv = server;
+        bool last = liveEntries(sv) == 0;
+        loops[0]->w.exec([sv, last]() {
+          if (last) { delete sv; return; }
+          for (auto it = sv->connections_.begin(); it != sv->connections_.end(); ++it)
+            if (it->second)
+            {
+              TcpConnectionPtr conn(it->second);
+              it->second.reset();
+              sv->connections_.erase(it);
+              conn->getLoop()->runInLoop(std::bind(&TcpConnection::connectDestroyed, conn));
+              break;
+            }
+        });
+        if (last) { server = NULL; inlineDying = false; } else inlineDying = true;
+      }
       else
       {
-        // ~TcpServer: the body, then threadPool_ dies: ~EventLoopThread of io loop 1 does quit() and blocks in join().  The op ends
-        // when the base thread has reached that join (or, with every io loop in poll() and nothing to do, never: the io
-        // threads are parked, so it does block)
-        int prev;
-        { std::lock_guard<std::mutex> l(g_poolMu); prev = g_joinReached; g_sdDone = false; }
-        TcpServer* victim = server;
+        // the REAL ~TcpServer on the base thread: it parks after each hand-off (hook on the wakeup() write); after the last
+        // one threadPool_ dies: ~EventLoopThread of io loop 1 does quit() and blocks in join()
+        int pp, pj;
+        { std::lock_guard<std::mutex> l(g_poolMu); pp = g_handoffsParked; pj = g_joinReached; g_sdDone = false; g_handoffsToPark = liveEntries(server); g_baseGo = false; }
+        victim = server;
         server = NULL;
-        loops[0]->w.startAsync([victim]() {
+        TcpServer* v = victim;
+        loops[0]->w.startAsync([v]() {
           t_inSrvDtor = true;
-          delete victim;
+          delete v;
           t_inSrvDtor = false;
           { std::lock_guard<std::mutex> l(g_poolMu); g_sdDone = true; }
           g_poolCv.notify_all();
         });
-        waitPoolEvent(prev);
+        std::set<TcpConnection*> before = liveSet(v);
+        waitStep(pp, pj);
+        handRaw = NULL;
+        if (dying) { std::set<TcpConnection*> after = liveSet(v); for (TcpConnection* x : before) if (!after.count(x)) handRaw = x; }
       }
     }
     else if (k == "CCONN")
@@ -1256,6 +1334,7 @@ int main()
       // references the harness knows to be temporaries of a stalled call (the bound functor / the shared_from_this()
       // temporary of forceClose / forceCloseWithDelay parked at the queue's mutex) are not holders of the model
       for (auto& cl : calls) if (cl.second->conn == static_cast<int>(i) && cl.second->at == 2 && (cl.second->api == 1 || cl.second->api == 2)) uc -= 1;
+      if (dying && handRaw && cr.raw == handRaw) uc -= 1;
       int timers = cr.timersSeen;
       if (!loops[static_cast<size_t>(cr.loop)]->gone)
       {
@@ -1291,8 +1370,12 @@ int main()
     if (getenv("C02_DEBUG"))
       for (size_t i = 0; i < g_conns.size(); ++i)
         if (!g_conns[i].weak.expired()) fprintf(stderr, "  dbg conn %zu fd=%d index=%d events=%d\n", i, g_conns[i].fd, g_conns[i].raw->channel_->index(), g_conns[i].raw->channel_->events());
-    printf("%s ev=%s | %s | q=%s srv=%d:%zu cli=%d:%s\n", rejected ? "rejected" : "ok", ev.c_str(), cs.c_str(), qs.c_str(),
-           server ? 1 : 0, server ? server->connections_.size() : static_cast<size_t>(0), client ? 1 : 0, cli.c_str());
+    // srv=1:n the server exists, n live entries; srv=D:n its destructor is between two hand-offs; srv=0:0 it is gone
+    size_t liveN = 0;
+    { TcpServer* sv = server ? server : (dying ? victim : NULL); if (sv) for (auto& e : sv->connections_) if (e.second) ++liveN; }
+    // (with no io threads a stepped destructor is recognised by the model side only: the server object still exists)
+    printf("%s ev=%s | %s | q=%s srv=%s:%zu cli=%d:%s\n", rejected ? "rejected" : "ok", ev.c_str(), cs.c_str(), qs.c_str(),
+           dying || inlineDying ? "D" : server ? "1" : "0", liveN, client ? 1 : 0, cli.c_str());
     fflush(stdout);
   }
   user0.stop();
